@@ -527,6 +527,7 @@ func (ex *Exec) initIntrinsics() {
 	in["errors.Unwrap"] = func(ex *Exec, fr *Frame, a []Value) Value { return ex.errorsUnwrap(a[0].(IfaceV)) }
 
 	ex.initReflect()
+	ex.initConcreteFuncs()
 	ex.initHarnessAPI()
 }
 
